@@ -71,9 +71,17 @@ def alpha(cfg, crate, rep):
         # length: exactly one plain term, `len(vec) % k != 0`
         ok_len = False
         if len(plains) == 1:
+            # the whole-input test as a function of r = len % k: rejected exactly for r != 0 (`% 2 != 0`, `% 2 == 1`,
+            # `!(len % 4 == 0)`, a chain over 1, 2, 3 ...)
             ats = F.atoms(plains[0])
-            if len(ats) == 1 and ats[0][0] == "eq" and ("len(vec) %% %d" % k) in str(ats[0]) and "0" in (ats[0][1], ats[0][2]):
-                ok_len = F.evalf(plains[0], {ats[0]: False}) and not F.evalf(plains[0], {ats[0]: True})
+            rem = {}
+            for a in ats:
+                if a[0] == "eq" and ("len(vec) %% %d" % k) in (str(a[1]) + str(a[2])):
+                    c_ = a[2] if ("len(vec) %% %d" % k) in str(a[1]) else a[1]
+                    if str(c_).isdigit():
+                        rem[a] = int(str(c_))
+            if ats and len(rem) == len(ats):
+                ok_len = all(F.evalf(plains[0], {a: (r_ == c_) for a, c_ in rem.items()}) == (r_ != 0) for r_ in range(k))
         rep.ob("C13.len", "%s|%s" % (cfg, fn), ok_len, "byte length not divisible by %d is rejected (and that is the only whole-input test)" % k, found=[F.show(x)[:160] for x in plains])
         ok = False
         found = None
